@@ -153,8 +153,10 @@ pub(crate) fn drive(kind: Kind, variant: Variant, src: Src<'_>, side: &Side, dee
         (Kind::Fai, s) => s.with_bufread(|b| index_result(fasta::fai::io::Reader::new(b).read_index())),
         (Kind::FastqFai, s) => s.with_bufread(drive_fastq_fai),
         (Kind::Crai, s) => match variant {
-            Variant::Primary => index_result(cram::crai::io::Reader::new(s.read()).read_index()),
-            _ => drive_crai_records(s.read()),
+            // record-wise is the primary reading: `read_index()` fails on every index with more than one
+            // record on the pinned tree (its line buffer is never cleared)
+            Variant::Primary => drive_crai_records(s.read()),
+            _ => index_result(cram::crai::io::Reader::new(s.read()).read_index()),
         },
     }
 }
